@@ -49,7 +49,7 @@ def register(reg):
             target=D + 'detect_threshold', props=['C04'], stmt='threshold', tag=f'formula-{tag}',
             stmt_like='np.broadcast_to(background, data.shape) + '
                       'np.broadcast_to(error * nsigma, data.shape)',
-            params={'data': ('arr', 2, 'real'), 'nsigma': 'real', 'background': bspec,
+            params={'data': ('arr', 2, 'real', 'anydtype'), 'nsigma': 'real', 'background': bspec,
                     'error': espec},
             requires=req,
             ensures=[('shape', 'value.shape == data.shape'),
